@@ -63,7 +63,7 @@ else:
     try:
         for p in [prop] + extra_props:
             t = time.time()
-            rc, o = sh(f"./check {p} --tier quick", cwd="/verif", timeout=3600)
+            rc, o = sh(f"./check {p} --tier quick", cwd=os.environ.get("EVAL_HOME", "/verif"), timeout=3600)
             lines = [l for l in o.splitlines() if l.startswith("VIOLATION") or l.startswith("HARNESS") or l.startswith("SUMMARY")]
             results[p] = {"exit": rc, "wall_s": round(time.time() - t, 1), "lines": lines[:8]}
             # keep the replay files of the detection
